@@ -158,6 +158,58 @@ func VH_C02_Stable() {
 		te.PlayerJoin(who)
 	case 3:
 		te.PlayerRedeemChips(JoinPlayer{PlayerID: who, RedeemChips: verifrt.Int64("amount")})
+	case 4:
+		// a seated player who is not in the hand (busted, waiting, not yet joined) leaves
+		// while the hand runs: the player list shrinks, the hand's entries must follow
+		inHand := false
+		for k := 0; k < m; k++ {
+			if ids[k] == who {
+				inHand = true
+			}
+		}
+		verifrt.Assume(!inHand)
+		// "while the hand runs" = one of the three hand statuses; after a PauseTable / CloseTable
+		// in the middle of a hand no action is accepted any more and the hand is never settled
+		verifrt.Assume(st.Status == TableStateStatus_TableGameOpened || st.Status == TableStateStatus_TableGamePlaying || st.Status == TableStateStatus_TableGameSettled)
+		pre := make([]int64, m)
+		for k := 0; k < m; k++ {
+			pre[k] = st.PlayerStates[st.GamePlayerIndexes[k]].Bankroll
+		}
+		err := te.PlayersLeave([]string{who})
+		verifrt.Assert(err == nil, "a seated player can leave")
+		verifrt.Assert(len(te.table.State.PlayerStates) == n-1, "exactly the leaver is gone")
+		for k := 0; k < m; k++ {
+			idx := te.table.State.GamePlayerIndexes[k]
+			verifrt.Assert(idx >= 0 && idx < n-1 && te.table.State.PlayerStates[idx].Bankroll == pre[k], "hand participants keep their bankrolls when a bystander leaves")
+		}
+	case 5:
+		// a player who IS dealt in leaves while the hand runs (known finding
+		// C02_LEAVE_DEALT_IN: the entry is dropped and every later entry shifts)
+		inHand := false
+		for k := 0; k < m; k++ {
+			if ids[k] == who {
+				inHand = true
+			}
+		}
+		verifrt.Assume(inHand)
+		verifrt.Assume(st.Status == TableStateStatus_TableGameOpened || st.Status == TableStateStatus_TableGamePlaying || st.Status == TableStateStatus_TableGameSettled)
+		verifrt.KF("C02_LEAVE_DEALT_IN", true)
+		err := te.PlayersLeave([]string{who})
+		verifrt.Assert(err == nil, "a seated player can leave")
+		st = te.table.State
+		for k := 0; k < m; k++ {
+			if ids[k] == who {
+				continue
+			}
+			ok := k < len(st.GamePlayerIndexes)
+			if ok {
+				idx := st.GamePlayerIndexes[k]
+				ok = idx >= 0 && idx < len(st.PlayerStates) && st.PlayerStates[idx].PlayerID == ids[k]
+			}
+			verifrt.Assert(ok, "entry k of the running hand still denotes the same player after another participant left")
+		}
+		verifrt.Reach("end")
+		return
 	}
 	st = te.table.State
 	verifrt.Assert(len(st.GamePlayerIndexes) == m, "the hand keeps its entries")
